@@ -447,8 +447,27 @@ static void explore(const Prog& p, int n, int bound, long maxruns, const std::ve
   }
 }
 
+/* "@<file>": a program given by the caller; the file holds the prelude, a line "%%", then the text */
+static std::string g_file_prelude, g_file_text;
+static Prog g_file_prog = { "@file", nullptr, nullptr };
+
 static const Prog * find_prog(const char * name)
 {
+  if (name[0] == '@')
+  {
+    FILE * f = fopen(name + 1, "rb");
+    if (!f) return nullptr;
+    std::string all; char buf[4096]; size_t r;
+    while ((r = fread(buf, 1, sizeof(buf), f)) > 0) all.append(buf, r);
+    fclose(f);
+    size_t sep = all.find("\n%%\n");
+    if (sep == std::string::npos) return nullptr;
+    g_file_prelude = all.substr(0, sep);
+    g_file_text = all.substr(sep + 4);
+    g_file_prog.prelude = g_file_prelude.c_str();
+    g_file_prog.text = g_file_text.c_str();
+    return &g_file_prog;
+  }
   for (int i = 0; i < NPROGS; ++i) if (strcmp(PROGS[i].name, name) == 0) return &PROGS[i];
   return nullptr;
 }
